@@ -11,6 +11,9 @@ SS = SR.SS
 
 
 def run(rep, prog, tier):
+    from .hidden import no_hidden_state
+    rep.rule('R10.state', 'no hidden state in the anchored modules: no function writes a module-level object, no caching decorator / cached property')
+    no_hidden_state(rep, 'R10.state', prog, ['Network/NodalAnalysis/state_space_model.py', 'Circuit/state_space_model.py', 'SignalProcessing/state_space_model.py', 'Network/NodalAnalysis/node_analysis.py'])
     rep.rule('R10.space', 'state order / source order / output-row addressing agree: every index, product and stack of the builder, the model accessors and the circuit-level wrapper joins equal label spaces')
     rep.rule('R10.layout', 'A: S x S, B: S x U, C: (N+V) x S, D: (N+V) x U with S = order of c_values then l_values, U = current sources then voltage sources that are not inductors; the published source list has space U')
     rep.rule('R10.formula', 'non-commutative normal forms of A, B, C, D equal the MNA derivation: S = (DQ^T A~^-1 DQ)^-1, A = L^-1 S, B = -L^-1 S DQ^T A~^-1 QS, C = A~^-1 DQ S, D = (A~^-1 - A~^-1 DQ S DQ^T A~^-1) QS (A~ symmetric)')
@@ -105,7 +108,19 @@ def formulas(rep, prog):
     okil = ilam is not None and lam is not None
     if okil:
         arg = ev0.calls[ilam][1][0]
-        okil = 'diag(' in arg and ('1 / ' in arg or '1/' in arg) and arg.count('for') == 1
+        okil = False
+        try:
+            lc = ast.parse(arg, mode='eval').body
+            if isinstance(lc, (ast.ListComp, ast.GeneratorExp)) and len(lc.generators) == 1 and not lc.generators[0].ifs and 'diag(' in ast.unparse(lc.generators[0].iter):
+                from ..terms import Evaluator as _E, Comp as _C, Poly as _P, term_equal as _te
+                from ..api import A as _A
+                e1 = _E(prog)
+                t_ = e1.ev(lc, {'__parent__': None, 'Lambda': _A('Lambda'), 'np': e1.lookup('np', {'__parent__': None}, m)}, m, 1)
+                if isinstance(t_, _C) and len(t_.gens) == 1:
+                    beta = e1.elem_of(t_.gens[0][0], 0)
+                    okil = _te(t_.elt, beta.inv()) if isinstance(beta, _P) else False
+        except SyntaxError:
+            okil = False
     rep.ob('R10.wiring', 'invLambda=diag(1/diag(Lambda))', bool(okil), f'invLambda = {ilam}', site)
     if None in (a_tilde, hst, qsql, ilam):
         rep.ob('R10.formula', 'ABCD', None, 'base matrices not identified', site); return
@@ -146,8 +161,9 @@ def wrapper(rep, prog):
     rep.ob('R10.wrapper', 'row-argument', all(ok for _, _, ok, _ in seq['c'] + seq['d']) and bool(seq['c']), 'each row is requested for the identifier being iterated', site)
     kinds = {('potential_nodes', 'for_potential'), ('voltage_ids', 'voltage'), ('current_ids', 'current')}
     rep.ob('R10.wrapper', 'list-kind', {(a, b) for a, b, _, _ in seq['c']} == kinds, 'potential_nodes -> potential rows, voltage_ids -> voltage rows, current_ids -> current rows', site)
-    ret = [r for r in ast.walk(fn) if isinstance(r, ast.Return)]
-    kw = {k.arg: ast.unparse(k.value) for k in ret[0].value.keywords} if ret and isinstance(ret[0].value, ast.Call) else {}
+    from ..prog import returned_expr
+    rv = returned_expr(fn)
+    kw = {k.arg: ast.unparse(k.value) for k in rv.keywords} if isinstance(rv, ast.Call) else {}
     ctargets = {t for _, _, _, t in seq['c']}; dtargets = {t for _, _, _, t in seq['d']}
     okr = kw.get('A', '').endswith('.A') and kw.get('B', '').endswith('.B') and {kw.get('C')} == ctargets and {kw.get('D')} == dtargets
     rep.ob('R10.wrapper', 'result', okr, f'StateSpaceModel({kw})', site)
